@@ -547,3 +547,268 @@ pub fn tier_and_seed(args: &[String]) -> (String, u64) {
         .unwrap_or(0);
     (tier, seed)
 }
+
+// ---------------------------------------------------------------------------
+// crash isolation: evaluate states in worker subprocesses (DESIGN.md 2.1)
+
+#[derive(serde::Serialize, serde::Deserialize, Default)]
+pub struct CtxOut {
+    pub violations: Vec<(String, String, Value, usize)>,
+    pub outcomes: Vec<u64>,
+    pub executed: u64,
+    pub excluded: Vec<(String, u64)>,
+    pub notes: Vec<(String, u64)>,
+}
+
+impl CtxOut {
+    pub fn from_ctx(c: Ctx) -> CtxOut {
+        CtxOut {
+            violations: c.violations.into_iter().map(|v| (v.sig, v.detail, v.replay, v.size)).collect(),
+            outcomes: c.outcomes,
+            executed: c.executed,
+            excluded: c.excluded.into_iter().map(|(k, n)| (k.to_string(), n)).collect(),
+            notes: c.notes,
+        }
+    }
+}
+
+/// Worker side: read one JSON state per line from stdin; before each state print `B <idx>`, after
+/// it `R <idx> <CtxOut json>`.
+pub fn worker_loop(check: impl Fn(&Value, &mut Ctx)) {
+    use std::io::{BufRead, Write};
+    let stdin = std::io::stdin();
+    let stdout = std::io::stdout();
+    for (i, line) in stdin.lock().lines().enumerate() {
+        let Ok(line) = line else { break };
+        if line.trim().is_empty() {
+            continue;
+        }
+        let state: Value = match serde_json::from_str(&line) {
+            Ok(v) => v,
+            Err(e) => {
+                eprintln!("worker: bad state line: {e}");
+                std::process::exit(3)
+            }
+        };
+        {
+            let mut o = stdout.lock();
+            let _ = writeln!(o, "B {i}");
+            let _ = o.flush();
+        }
+        let mut ctx = Ctx::default();
+        check(&state, &mut ctx);
+        let out = CtxOut::from_ctx(ctx);
+        let mut o = stdout.lock();
+        let _ = writeln!(o, "R {i} {}", serde_json::to_string(&out).unwrap());
+        let _ = o.flush();
+    }
+}
+
+/// Parent side: evaluate `states` with `workers` subprocesses (`<this exe> worker <name>`), each fed
+/// batches of `batch` states. A worker that dies or stays silent longer than `per_state_timeout`
+/// identifies the state it was working on; that state becomes a violation (`crash_sig`) and the
+/// rest of its batch is given to a fresh worker.
+pub fn isolated_sweep(
+    name: &str,
+    worker_name: &str,
+    states: &[Value],
+    batch: usize,
+    wall: Duration,
+    per_state_timeout: Duration,
+    crash_prefix: &str,
+) -> Stats {
+    use std::io::{BufRead, BufReader, Write};
+    use std::process::{Command, Stdio};
+    let start = Instant::now();
+    let exe = std::env::current_exe().expect("current exe");
+    let shared = Mutex::new(Shared {
+        outcomes: HashSet::new(),
+        executed: 0,
+        excluded: BTreeMap::new(),
+        notes: BTreeMap::new(),
+        violations: BTreeMap::new(),
+    });
+    let done = std::sync::atomic::AtomicU64::new(0);
+    let capped = std::sync::atomic::AtomicBool::new(false);
+    let chunks: Vec<&[Value]> = states.chunks(batch.max(1)).collect();
+    chunks.par_iter().for_each(|chunk| {
+        let mut offset = 0usize;
+        while offset < chunk.len() {
+            if start.elapsed() > wall {
+                capped.store(true, std::sync::atomic::Ordering::Relaxed);
+                return;
+            }
+            let rest = &chunk[offset..];
+            let mut child = match Command::new(&exe)
+                .arg("worker")
+                .arg(worker_name)
+                .env("VERIF_ROOT", verif_root())
+                .stdin(Stdio::piped())
+                .stdout(Stdio::piped())
+                .stderr(Stdio::null())
+                .spawn()
+            {
+                Ok(c) => c,
+                Err(e) => {
+                    eprintln!("machinery error: cannot spawn worker: {e}");
+                    std::process::exit(2)
+                }
+            };
+            let mut stdin = child.stdin.take().unwrap();
+            let payload: String = rest.iter().map(|s| format!("{}\n", serde_json::to_string(s).unwrap())).collect();
+            let writer = std::thread::spawn(move || {
+                let _ = stdin.write_all(payload.as_bytes());
+            });
+            let stdout = child.stdout.take().unwrap();
+            let (tx, rx) = std::sync::mpsc::channel::<String>();
+            let reader = std::thread::spawn(move || {
+                for line in BufReader::new(stdout).lines() {
+                    match line {
+                        Ok(l) => {
+                            if tx.send(l).is_err() {
+                                break;
+                            }
+                        }
+                        Err(_) => break,
+                    }
+                }
+            });
+            let mut current: Option<usize> = None;
+            let mut finished = 0usize;
+            let mut timed_out = false;
+            loop {
+                match rx.recv_timeout(per_state_timeout) {
+                    Ok(l) => {
+                        if let Some(i) = l.strip_prefix("B ") {
+                            current = i.trim().parse().ok();
+                        } else if let Some(r) = l.strip_prefix("R ") {
+                            let (i, body) = r.split_once(' ').unwrap_or((r, "{}"));
+                            let _: usize = i.parse().unwrap_or(0);
+                            match serde_json::from_str::<CtxOut>(body) {
+                                Ok(o) => {
+                                    let mut ctx = Ctx::default();
+                                    ctx.executed = o.executed;
+                                    ctx.outcomes = o.outcomes;
+                                    ctx.notes = o.notes;
+                                    for (k, n) in o.excluded {
+                                        ctx.notes.push((format!("excluded: {k}"), n));
+                                    }
+                                    for (sig, detail, replay, size) in o.violations {
+                                        ctx.violation(sig, detail, replay, size);
+                                    }
+                                    absorb(&shared, ctx);
+                                }
+                                Err(e) => {
+                                    eprintln!("machinery error: worker result does not parse: {e}");
+                                    std::process::exit(2)
+                                }
+                            }
+                            finished += 1;
+                            current = None;
+                            done.fetch_add(1, std::sync::atomic::Ordering::Relaxed);
+                        }
+                    }
+                    Err(std::sync::mpsc::RecvTimeoutError::Timeout) => {
+                        timed_out = true;
+                        let _ = child.kill();
+                        break;
+                    }
+                    Err(std::sync::mpsc::RecvTimeoutError::Disconnected) => break,
+                }
+            }
+            let status = child.wait();
+            let _ = writer.join();
+            let _ = reader.join();
+            if finished == rest.len() {
+                break;
+            }
+            // the worker died (or was killed) while working on `current`
+            let culprit = current.unwrap_or(finished);
+            let how = if timed_out {
+                format!("no result within {per_state_timeout:?} (non-termination?)")
+            } else {
+                format!("worker process died: {:?}", status.map(|s| s.to_string()))
+            };
+            let mut ctx = Ctx::default();
+            let st = &rest[culprit.min(rest.len() - 1)];
+            ctx.violation(
+                format!("{crash_prefix}/{}", if timed_out { "no-termination" } else { "crash" }),
+                format!("{how} while evaluating this state (stack overflow, abort or endless loop)"),
+                json!({"check": worker_name, "state": st}),
+                serde_json::to_string(st).map(|s| s.len()).unwrap_or(0),
+            );
+            absorb(&shared, ctx);
+            done.fetch_add(1, std::sync::atomic::Ordering::Relaxed);
+            offset += culprit + 1;
+        }
+    });
+    let sh = shared.into_inner().unwrap();
+    let n = done.load(std::sync::atomic::Ordering::Relaxed);
+    let capped = capped.load(std::sync::atomic::Ordering::Relaxed);
+    Stats {
+        driver: name.to_string(),
+        states: n,
+        transitions: n,
+        max_depth: 1,
+        bound_completed: if capped { 0 } else { 1 },
+        exhaustive: !capped,
+        cap_hit: if capped {
+            Some(format!("wall cap {wall:?} hit after {n} of {} states", states.len()))
+        } else {
+            None
+        },
+        executed: sh.executed,
+        distinct_outcomes: sh.outcomes.len() as u64,
+        per_depth: vec![n],
+        excluded: sh.excluded,
+        notes: sh.notes,
+        samples: states.iter().take(3).cloned().collect(),
+        violations: sh
+            .violations
+            .into_iter()
+            .map(|(_, (n, mut v))| {
+                v.detail = format!("{} ({} states fail this way; smallest witness shown)", v.detail, n);
+                v
+            })
+            .collect(),
+        wall_s: start.elapsed().as_secs_f64(),
+    }
+}
+
+/// enumerate all states of a driver up to `max_depth` without evaluating anything
+pub fn enumerate<D: Driver>(d: &D, max_depth: u32, max_states: usize) -> (Vec<(u32, D::State)>, u64, bool) {
+    let mut seen: HashSet<u128> = HashSet::new();
+    let mut all = vec![];
+    let mut frontier: Vec<D::State> = vec![];
+    let mut transitions = 0u64;
+    for s in d.initial() {
+        if d.key(&s).map(|k| seen.insert(k)).unwrap_or(true) {
+            frontier.push(s);
+        }
+    }
+    let mut depth = 0;
+    loop {
+        for s in &frontier {
+            all.push((depth, s.clone()));
+        }
+        if depth >= max_depth || frontier.is_empty() {
+            break;
+        }
+        let succs: Vec<Vec<D::State>> = frontier.par_iter().map(|s| d.successors(s, depth)).collect();
+        let mut next = vec![];
+        for v in succs {
+            transitions += v.len() as u64;
+            for s in v {
+                if d.key(&s).map(|k| seen.insert(k)).unwrap_or(true) {
+                    next.push(s);
+                }
+            }
+        }
+        if all.len() + next.len() > max_states {
+            return (all, transitions, false);
+        }
+        frontier = next;
+        depth += 1;
+    }
+    (all, transitions, true)
+}
